@@ -25,7 +25,9 @@ SAN = {
     'tsan': (['clang'], ['-O1', '-g', '-fno-omit-frame-pointer', '-fsanitize=thread']),
 }
 
-NONREENTRANT = ('localtime', 'gmtime', 'ctime', 'asctime', 'getpwuid', 'getpwnam', 'getgrgid', 'getgrnam', 'ttyname', 'getlogin', 'strtok', 'strerror')
+NONREENTRANT = ('localtime', 'gmtime', 'ctime', 'asctime', 'getpwuid', 'getpwnam', 'getgrgid', 'getgrnam', 'ttyname', 'getlogin', 'strtok', 'strerror',
+                # libc's ONE process-wide utmp reader (file, position, name): the _r variants only make the RESULT buffer the caller's
+                'setutent', 'endutent', 'getutent', 'getutline', 'getutid', 'getutent_r', 'getutline_r', 'getutid_r')
 
 SCHED_DEFS = ['-Dpthread_mutex_lock=vs_mutex_lock', '-Dpthread_mutex_unlock=vs_mutex_unlock',
               '-Dpthread_once=vs_once', '-Dpthread_mutex_init=vs_mutex_init']
